@@ -27,7 +27,7 @@ def generate(streams, tier):
     labels, mode = W.gen_labels(rl, k)
     smode = weighted(rl, [("default", 2), ("str", 3), ("int", 2), ("mixed", 1), ("tuple", 1), ("odd", 1)])
     states = [W.gen_states(rl, card[v], smode, allow_negative=True) if card[v] <= 5 else None for v in range(k)]
-    universe = {"n": k, "card": card, "labels": labels, "states": states}
+    universe = {"n": k, "card": card, "labels": labels, "states": states, "signed": streams.s("signed").random() < 0.25}
     rw = streams.s("workload")
     init = [_rand_factor(rw, universe) for _ in range(POOL)]
     ops = []
@@ -52,6 +52,9 @@ def _rand_factor(r, u, scope=None):
     size = int(np.prod([u["card"][v] for v in scope]))
     zero = r.choice([0.0, 0.0, 0.3])
     vals = [0.0 if r.random() < zero else r.randint(1, 16) / 4.0 for _ in range(size)]
+    if u.get("signed"):
+        # general real-valued factors (log-potentials, differences of factors): a negative cell over a zero cell is -inf
+        vals = [-x if r.random() < 0.3 else x for x in vals]
     return {"scope": list(scope), "values": vals}
 
 
@@ -402,7 +405,7 @@ def _eq_probe(ctx, u, names, a, ra, rr):
         finite = [q for q in range(pert.size) if np.isfinite(pert[q])]
         if finite and np.all(np.isfinite(pert)):
             idx = rr.choice(finite)
-            pert[idx] = pert[idx] * 1.01 + 0.01
+            pert[idx] = pert[idx] + 0.01 * abs(pert[idx]) + 0.01
             twin2 = DiscreteFactor([names.L(v) for v in perm_axes], [u["card"][v] for v in perm_axes], pert, state_names=sn)
             if a == twin2:
                 ctx.fail("equality", f"{PROP}:eq_true_for_different", {"scope": sc, "cell": idx})
